@@ -95,9 +95,25 @@ def check_case(case):
     if k == 'powseq':
         # the same (hash, nBits) judged under a SEQUENCE of chain selections: the verdict may only depend on the chain selected now
         cls = []
+        prev_chain = 'mainnet'
         try:
             for chain, h, c in case['steps']:
-                libx.select(chain)
+                if chain.startswith('!'):
+                    # a selection that is REFUSED (unknown name) in between: the previous chain stays in force, completely
+                    try:
+                        bitcoin.SelectParams(chain[1:])
+                    except Exception:
+                        pass
+                    chain = prev_chain
+                    if bitcoin.params.NAME != bitcoin.core.coreparams.NAME:
+                        raise Violation('powseq/params-inconsistent', 'after a refused SelectParams: params %r, coreparams %r' % (bitcoin.params.NAME, bitcoin.core.coreparams.NAME))
+                    chain = bitcoin.core.coreparams.NAME if bitcoin.core.coreparams.NAME in RC.CHAINS else prev_chain
+                else:
+                    libx.select(chain)
+                prev_chain = chain
+                if h == 'genesis':
+                    # the hash that every node knows - the chain's own genesis block hash - gets no special treatment
+                    h = int.from_bytes(bitcoin.core.coreparams.GENESIS_BLOCK.GetHash(), 'little')
                 exp = RC.pow_ok(h, c, RC.CHAINS[chain]['limit'])
                 r = libx.call('pow', CheckProofOfWork, h.to_bytes(32, 'little'), c, allowed=(ValidationError,))
                 if (r[0] == 'ok') != exp:
@@ -183,7 +199,10 @@ def t_random(ctx):
         for c in (0x207fffff, 0x1e00ffff, 0x1d00ffff):
             for order in itertools.permutations(libx.CHAINS):
                 ctx.run({'kind': 'powseq', 'steps': [[ch, 0, c] for ch in order]})
-        ctx.exhaustive.append('3 targets x all 24 orders of the four chains (chain-switch histories)')
+        for ch in libx.CHAINS:
+            for c in (0, 0x1d00ffff, 0x207fffff, 0x01800000, 0x1d800001, 0x23000001, 0x2100ffff, 0x04000000, 0x1c00ffff):
+                ctx.run({'kind': 'powseq', 'steps': [[ch, 'genesis', c], ['!testnet3', 0, 0x1d00ffff], ['!', 5, 0x207fffff], [ch, 'genesis', c], ['!main', 0, c]]})
+        ctx.exhaustive.append('3 targets x all 24 orders of the four chains (chain-switch histories); each chain\'s genesis hash against 9 compact values; refused selections in between')
 
 
 TASKS = [('grid', (t_grid, 4)), ('pow_grid', (t_pow_grid, 4)), ('random', (t_random, 8))]
